@@ -182,3 +182,43 @@ atomic!(atomic_u16, u16);
 atomic!(atomic_u32, u32);
 atomic!(atomic_u64, u64);
 atomic!(atomic_usize, usize);
+
+/// region level: the real GuestRegionMmap (raw-pointer region) funnels into the same copy helper
+#[kani::proof]
+#[kani::unwind(10)]
+#[kani::stub(core::ptr::read_volatile, rv_stub)]
+#[kani::stub(core::ptr::write_volatile, wv_stub)]
+fn region_write_read() {
+    use crate::cffi::PagePool;
+    use vm_memory::MemoryRegionAddress;
+    let mut pool = PagePool(kani::any());
+    let gb = pool.0.as_ptr() as usize;
+    let g = crate::regn::mk_region(&mut pool, 16, 0x1000);
+    let mut loc = Aligned::<N>::any();
+    let lb = loc.base();
+    let go: usize = kani::any();
+    let lo: usize = kani::any();
+    let len: usize = kani::any();
+    kani::assume(len <= 8 && go <= N - len && lo <= N - len);
+    let do_write: bool = kani::any();
+    if do_write {
+        leak(g.write(&loc.0[lo..lo + len], MemoryRegionAddress(go as u64)));
+    } else {
+        leak(g.read(&mut loc.0[lo..lo + len], MemoryRegionAddress(go as u64)));
+    }
+    core::mem::forget(g);
+    // the pool is 64 bytes; the region is its first 16
+    let (gk, lk) = if do_write { (1u8, 0u8) } else { (0u8, 1u8) };
+    let gcnt = check_tiling(gk, gb, gb + 64, gb + go, len);
+    let lcnt = check_tiling(lk, lb, lb + N, lb + lo, len);
+    assert!(gcnt == lcnt);
+    if (len == 1 || len == 2 || len == 4 || len == 8) && (gb + go) % len == 0 && (lb + lo) % len == 0 {
+        assert!(gcnt == 1);
+    }
+    kani::cover!(len == 8 && gcnt == 1 && do_write);
+    kani::cover!(len == 4 && gcnt == 1 && !do_write);
+    kani::cover!(len == 8 && gcnt > 1);
+}
+
+// (guest-memory level through a real GuestMemoryMmap + trace stubs ran CBMC out of memory (20 GB); the guest level funnels into
+// GuestRegionMmap::write/read via the blanket impl and try_access, whose chunking is decided in C03 and C07.)
